@@ -86,8 +86,9 @@ pub fn launch_target_actor(
 ) -> Result<(JoinHandle<()>, TargetActorHandleSet)> {
     let (termination_sender, termination_events) = channel::bounded(1);
     let (target_invalidated_sender, target_invalidated_events) = channel::bounded(1);
-    let (target_actor_input_sender, target_actor_input_receiver) =
-        channel::bounded(crate::DEFAULT_CHANNEL_CAP);
+    // Unbounded: the engine must never block while forwarding a message to a target, otherwise the
+    // target (blocked sending to the engine) and the engine (blocked sending to the target) deadlock.
+    let (target_actor_input_sender, target_actor_input_receiver) = channel::unbounded();
 
     let watcher = match watch_option {
         WatchOption::Enabled => {
